@@ -433,19 +433,19 @@ def run_bounded(rep: Report, tier: str) -> None:
         part("einsum 2 operands: sample of Net(2,5,4)", _work_einsum, items, False,
              "500 equations x <= 6 size assignments sampled from {1,2,3}", chunk=4)
     else:
-        items = [(i, o, 16, rng.randrange(2**30), False) for i, o in scope.networks(2, 4, 3)]
-        part("einsum 2 operands: Net(2,4,3) x 16 sampled size assignments", _work_einsum, items, False,
-             "all 8828 canonical equations over <= 4 symbols rank <= 3; 16 of the 81 size assignments from {1,2,3} each", chunk=8)
-        samp = _sample_two_operand(5, 4, 40000, rng)
+        items = [(i, o, None, 0, False) for i, o in scope.networks(2, 4, 3)]
+        part("einsum 2 operands: Net(2,4,3) x all sizes {1,2,3}", _work_einsum, items, True,
+             "all 8828 canonical equations over <= 4 symbols rank <= 3, every size assignment from {1,2,3}", chunk=8)
+        samp = _sample_two_operand(5, 4, 120000, rng)
         items = [(i, o, 6, rng.randrange(2**30), False) for i, o in samp]
         part("einsum 2 operands: sample of Net(2,5,4)", _work_einsum, items, False,
-             "40000 equations x <= 6 size assignments sampled from {1,2,3}", chunk=8)
+             "120000 equations x <= 6 size assignments sampled from {1,2,3}", chunk=8)
 
     # ---- tensordot ---------------------------------------------------------
     mr = 3 if quick else 4
     specs = tensordot_specs(mr)
     full_upto = 4 if quick else 5
-    limit = None if quick else 128
+    limit = None if quick else 400
     items = [(ra, rb, ax, full_upto, limit, rng.randrange(2**30)) for ra, rb, ax in specs]
     part(f"tensordot: ranks <= {mr}, every axes spec", _work_tensordot, items, limit is None,
          f"every int axes (python int, numpy.int64, and the default axes=2) and every pair of equal-length sequences of distinct axes ({len(specs)} specs); "
